@@ -60,8 +60,27 @@ func c01PairShapes(maxNodes int) [][2][]*Sh {
 	return res
 }
 
-func c01Case(sh []*Sh, name string) *Case {
-	atoms := &AtomTable{Coded: true}
+func c01Case(sh []*Sh, name string) *Case { return c01CaseMode(sh, name, true) }
+
+// c01SpelledShapes: skeletons whose blocks end in an ordinary command; they
+// run with SMT-string names (not Int-coded ones), so that a decision taken
+// on the spelling of a command, flag, label or script name (a prefix, a
+// substring, a letter case) becomes a solver query instead of falling under
+// the genericity assumption of DESIGN.md §12.
+func c01SpelledShapes() [][]*Sh {
+	c := func() *Sh { return &Sh{K: "cmd"} }
+	return [][]*Sh{
+		{c()},
+		{{K: "if", Blocks: [][]*Sh{{c()}}}, c()},
+		{{K: "if", Blocks: [][]*Sh{{c()}}}},
+		{{K: "ifelse", Blocks: [][]*Sh{{c()}, {c()}}}, c()},
+		{{K: "while", Blocks: [][]*Sh{{c()}}}, c()},
+		{{K: "dowhile", Blocks: [][]*Sh{{c()}}}, c()},
+	}
+}
+
+func c01CaseMode(sh []*Sh, name string, coded bool) *Case {
+	atoms := &AtomTable{Coded: coded}
 	b := &shapeBuilder{atoms: atoms}
 	sname := atoms.New(ClsIdent, "script", "names")
 	b.collectLabels(sh)
@@ -324,6 +343,10 @@ func RunC01(env *Env, rep *Report) {
 			cases = append(cases, c01Case(e, "c01/deadcode-entered/"+ShString(e)))
 		}
 	}
+	for _, sh := range c01SpelledShapes() {
+		cases = append(cases, c01CaseMode(sh, "c01/spelled/"+ShString(sh), false))
+	}
+	rep.Bounds["spelled_name_skeletons"] = len(c01SpelledShapes())
 	if len(cases) > 0 {
 		src, _ := cases[len(cases)/2].Prog.Render()
 		rep.AddSample(map[string]interface{}{"skeleton": cases[len(cases)/2].Shape, "source_with_holes": src})
